@@ -192,7 +192,7 @@ fn check_stream_ex(name: &str, pkts: &[Vec<u8>], chunking: Chunking, budget: u32
 /// reader does about the error, every packet it returns must be the packet at that position of the
 /// stream, consumed exactly to its end: an error may surface, a different packet may not, and the
 /// reader must not wait for bytes beyond the stream.
-fn check_transient(name: &str, pkts: &[Vec<u8>], budget: u32, acc: &mut Acc) {
+pub fn check_transient(prefix: &str, name: &str, pkts: &[Vec<u8>], budget: u32, acc: &mut Acc) {
     use std::io::ErrorKind::*;
     let stream: Vec<u8> = pkts.concat();
     let mut ends = vec![];
@@ -268,7 +268,7 @@ fn check_transient(name: &str, pkts: &[Vec<u8>], budget: u32, acc: &mut Acc) {
                 if !problems.is_empty() {
                     let choices = ctx.choices();
                     acc.violation(viol(
-                        format!("c04/transient/{name}/at={at}/kind={kind:?}/choices={choices:?}"),
+                        format!("{prefix}/transient/{name}/at={at}/kind={kind:?}/choices={choices:?}"),
                         format!("stream {name} ({} bytes: {}), one read fails with {kind:?} after {at} bytes, read-split choices {choices:?}\n{}", stream.len(), hex_short(&stream), problems.join("\n")),
                         ctx.deviations as u64 * 1000 + stream.len() as u64,
                     ));
@@ -671,7 +671,7 @@ pub fn run(run: &RunInfo) -> Summary {
             }
             // one failing read at every byte offset
             if seq.len() <= 2 && total <= 300 {
-                check_transient(&name, &pkts, if seq.len() == 1 || thorough { 1 } else { 0 }, acc);
+                check_transient("c04", &name, &pkts, if seq.len() == 1 || thorough { 1 } else { 0 }, acc);
             }
             // end of stream at every byte offset (default chunking, plus one deviation for short ones)
             if seq.len() <= 2 || thorough {
